@@ -652,8 +652,10 @@ func runHarness(spec *Spec, h *Harness, tier string, workers int, verbose bool, 
 		hr.infra = fmt.Sprintf("unsupported construct on %d path(s): %s", len(unsup), unsup[0])
 	case hr.nerr > 0:
 		hr.infra = fmt.Sprintf("solver error lines: %d (last: %s)", hr.nerr, hr.lastErr)
-	case hr.st.AssertUnknown > 0 || hr.st.FeasUnknown > 0:
-		hr.infra = fmt.Sprintf("INCONCLUSIVE: solver unknown on %d assertion and %d feasibility queries", hr.st.AssertUnknown, hr.st.FeasUnknown)
+	case hr.st.AssertUnknown > 0:
+		// an undecided assertion is inconclusive; an undecided branch feasibility is not: the branch is
+		// kept (a superset of the feasible paths is explored), which is reported in the evidence
+		hr.infra = fmt.Sprintf("INCONCLUSIVE: solver unknown on %d assertion queries (and %d feasibility queries)", hr.st.AssertUnknown, hr.st.FeasUnknown)
 	case hr.st.AssertQueries == 0 && hr.st.AssertChecks == 0:
 		hr.infra = "vacuous: no assertion was checked"
 	}
